@@ -290,6 +290,10 @@ def acquire_on_real(ctl, msg, record_only):
 
     def fake(self, tsi, tsr, index):
         seen.append((self, tsi, tsr, index))
+        # the stand-in starts the negotiation as the real method does for a known index (the controller drops an
+        # initiator that is still INITIAL afterwards: fix of F21)
+        if self.state == ikesa.IkeSa.State.INITIAL:
+            self.state = ikesa.IkeSa.State.INIT_REQ_SENT
         return b'request'
     before = list(ctl.ike_sas)
     logging.disable(logging.CRITICAL)
@@ -356,7 +360,7 @@ def check_acquire(ctx, ke, ctl, cfg, sim_spd, rng, fails, deep):
                                  {'kind': 'c15', 'seed': ctx.seed, 'acquire': msg.hex()}))
     # the real IkeSa.process_acquire: known index -> CHILD_SA under negotiation with the entry's parameters;
     # unknown index -> nothing
-    if outs and deep:
+    if outs:
         pol = rng.choice(outs)
         owners = [(ic, e) for ic in cfg.ike_configurations.values() for e in ic.protect
                   if (e.index * 8 + 1) % (1 << 32) == pol['index']
@@ -372,6 +376,13 @@ def check_acquire(ctx, ke, ctl, cfg, sim_spd, rng, fails, deep):
         c14.expect(d, 'request for an unknown index', req, None)
         c14.expect(d, 'CHILD_SA state after an unknown index',
                    [(x.creating_child_sa, x.child_sas) for x in ctl.ike_sas], [(None, [])] * len(ctl.ike_sas))
+        # "ignored": nothing stays behind either (F21: the initiator IkeSa created for the ACQUIRE used to stay listed,
+        # INITIAL, for ever)
+        if len(ctl.ike_sas) != 0:
+            fails.append(Failure('property', 'acquire:unknown-index-leaves-ike-sa',
+                                 f'an ACQUIRE for the unknown policy index {unknown} (no IKE_SA with the peer) left '
+                                 f'{[int(x.state) for x in ctl.ike_sas]} in the IKE_SA table',
+                                 {'kind': 'c15', 'seed': ctx.seed, 'acquire': msg.hex()}))
         ctx.count('acquire:unknown-index')
         ctl.ike_sas.clear()
         msg, want = build_acquire(ke, rng, pol)
@@ -534,8 +545,41 @@ def multihomed_probe(ctx, ke, rng, v=4):
     return []
 
 
+def unknown_index_regression(ctx):
+    """F21, through the real main_loop: ACQUIREs carrying a policy index that belongs to no protect entry (a policy
+    installed by somebody else - ACQUIREs are multicast to every key manager) arrive while there is no IKE_SA with that
+    peer.  They used to leave an initiator IkeSa in state INITIAL in the table for ever (listed by the status query,
+    counted as half-open by the cookie threshold)."""
+    from sim.scenarios import Pair, scripted
+    from sim.world import LoopEscape
+    rep = {'regression': 'F21'}
+    with Pair(seed=21) as p:
+        try:
+            for k in range(3):
+                p.do(['acquire_index', 'A', 81, 99 + k])
+            p.do(['tick', 1])
+            left = [int(x.state) for x in p.A.controller.ike_sas]
+            st = p.A.status()
+            ctx.case(['F21', left], nontrivial=True)
+            if left or (st and st[0]) or p.sim.net or p.A.kernel.sad:
+                return [Failure('property', 'acquire:unknown-index-leaves-ike-sa',
+                                f'F21 is back: after three ACQUIREs for unknown policy indexes the IKE_SA table of the '
+                                f'endpoint holds {left} (status query: {len(st[0]) if st else None} entries), '
+                                f'{len(p.sim.net)} datagram(s) sent', rep)]
+            p.run(scripted('handshake'))
+            if not p.established() or not p.A.kernel.sad:
+                return [Failure('property', 'acquire:unknown-index-leaves-ike-sa',
+                                'F21: after ignored ACQUIREs a genuine ACQUIRE no longer completes', rep)]
+        except LoopEscape as ex:
+            return [Failure('property', 'loop:escaped-exception', f'F21: {ex.exc!r}', rep)]
+    return []
+
+
 def regressions(ctx):
-    """Fixed finding F18 must stay fixed."""
+    """Fixed findings F18 and F21 must stay fixed."""
+    f21 = unknown_index_regression(ctx)
+    if f21:
+        return f21
     if not hasattr(ctx, 'uapi'):
         ctx.uapi = c14.translate_uapi(ctx)
     ke = c14.KEnc(ctx)
@@ -548,6 +592,8 @@ def regressions(ctx):
 
 
 def replay(ctx, obj):
+    if obj.get('regression') == 'F21':
+        return unknown_index_regression(ctx)
     if obj.get('kind') == 'c15-multihomed':
         if not hasattr(ctx, 'uapi'):
             ctx.uapi = c14.translate_uapi(ctx)
